@@ -19,7 +19,7 @@ RULE = ('family = one generated pipeline (source, 0-3 upstream stages, one prefe
         'ALL schedules with exactly one forced context switch.')
 PROBES = ['another_pipeline_used_first_in_the_same_run', 'endless_input_first_k_compared',
           'all_single_preemption_schedules_of_a_tiny_workload', 'items_refused',
-          'later_task_finished_first']
+          'later_task_finished_first', 'several_hundred_examples_behind_a_pool']
 BUDGET = {
     'quick': {'families': 6000, 'wall_cap': 420, 'shrink_s': 15},
     'thorough': {'families': 60000, 'wall_cap': 5400, 'shrink_s': 40},
@@ -33,7 +33,38 @@ def gen_systematic(rng):
     return parprops.one_preemption_cases(base, parrun.run_par_case)
 
 
+def gen_large(rng):
+    """A few hundred examples (index arithmetic beyond one byte, many jobs per
+    worker) behind a process-pool prefetch or parallel map; calm schedules."""
+    for _ in range(50):
+        n = rng.randrange(260, 420)
+        stages = [{'op': 'map', 'id': 'u0'}]
+        if rng.random() < 0.6:
+            stages.append({'op': 'batch', 'bs': rng.randrange(2, 4), 'drop_last': False})
+        r = rng.random()
+        if r < 0.4:
+            stages.append({'op': 'shuffle', 'seed': rng.randrange(1000)})
+        elif r < 0.6:
+            stages.append({'op': 'reshuffle', 'seed': rng.randrange(1000)})
+        elif r < 0.8:
+            stages.append({'op': 'slice', 'sl': {'start': None, 'stop': None, 'step': -1}})
+        par = pargen.gen_par_stage(rng, kinds=('prefetch', 'prefetch', 'parmap'),
+                                   backends=tuple(pargen.BACKENDS_POOL) + ('t',),
+                                   max_w=3, max_extra_b=2, single_p=0.0)
+        stages.append(par)
+        desc = {'source': {'kind': rng.choice(['list', 'dict']), 'n': n}, 'stages': stages}
+        if pargen.abs_eval(desc) is not None:
+            break
+    return [{'desc': desc, 'sched': {'policy': 'sticky', 'params': {'p': 0.95},
+                                     'seed': rng.randrange(1 << 30)},
+             'epochs': 1, 'items': False, 'cost_seed': rng.randrange(1000),
+             'think_seed': rng.randrange(1000), 'think_max': 0, 'trace': ['parallel_utils'],
+             'large': 1} for _j in range(2)]
+
+
 def gen(rng, tier, index):
+    if index % 100 == 99:
+        return gen_large(rng)
     if index % 60 == 59:
         return gen_systematic(rng)
     backends = ('t',) if rng.random() < 0.5 else \
@@ -100,6 +131,8 @@ def _out_of_order_probe(res, out):
 def run(case):
     res = parrun.run_par_case(case)
     out = parprops.base_outcome(case, res)
+    if case.get('large'):
+        out['probes']['several_hundred_examples_behind_a_pool'] = 1
     if case.get('systematic'):
         out['fired']['systematic_one_preemption'] = 1
         out['probes']['all_single_preemption_schedules_of_a_tiny_workload'] = 1
